@@ -54,10 +54,15 @@ impl PStat {
             let dir = self.sb.path().join(format!("perm{}", self.counter)).join("w");
             std::fs::create_dir_all(dir.join("M")).unwrap();
             let modes: Vec<u64> = if which == "all" { (0..4096).collect() } else { arr(&input["cover"]).iter().filter_map(|m| m.as_u64()).collect() };
+            std::fs::create_dir_all(dir.join("D")).unwrap();
             for m in modes {
                 let p = dir.join("M").join(format!("m{:04}", m));
                 std::fs::write(&p, b"").unwrap();
                 std::fs::set_permissions(&p, std::fs::Permissions::from_mode(m as u32)).unwrap();
+                // ... and a directory with the same mode (a symbolic X is x for directories)
+                let d = dir.join("D").join(format!("m{:04}", m));
+                std::fs::create_dir(&d).unwrap();
+                std::fs::set_permissions(&d, std::fs::Permissions::from_mode(m as u32)).unwrap();
             }
             self.permdir = Some((which, dir));
         }
@@ -88,6 +93,15 @@ impl PStat {
             let mut sel: Vec<u64> = split_nul(&r.out).iter().map(|p| String::from_utf8_lossy(p).strip_prefix("M/m").and_then(|x| x.parse().ok()).unwrap_or(99999)).collect();
             sel.sort();
             o[key] = json!(sel);
+            // the same operand over the directories
+            let args: Vec<String> = vec!["D".into(), "-mindepth".into(), "1".into(), "-maxdepth".into(), "1".into(), "-perm".into(), args[4].clone(), "-print0".into()];
+            let r = run_find_inproc(&dir, &args, None, &errf);
+            if r.panicked {
+                return json!({"panic": true, "args": args});
+            }
+            let mut sel: Vec<u64> = split_nul(&r.out).iter().map(|p| String::from_utf8_lossy(p).strip_prefix("D/m").and_then(|x| x.parse().ok()).unwrap_or(99999)).collect();
+            sel.sort();
+            o[format!("{}_d", key)] = json!(sel);
         }
         o
     }
@@ -229,7 +243,9 @@ impl Prop for PStat {
         }
         if exp.get("sel").is_some() {
             let ok_text = obs.get("text").map(|t| arr(t) == arr(&exp["sel"])).unwrap_or(true);
-            return obs.get("exit").is_none() && arr(&obs["octal"]) == arr(&exp["sel"]) && ok_text;
+            // directories: the octal operand selects the same modes, the symbolic one those of its value for a directory
+            let ok_dirs = exp.get("seld").map(|sd| arr(&obs["octal_d"]) == arr(&exp["sel"]) && obs.get("text_d").map(|t| arr(t) == arr(sd)).unwrap_or(true)).unwrap_or(true);
+            return obs.get("exit").is_none() && arr(&obs["octal"]) == arr(&exp["sel"]) && ok_text && ok_dirs;
         }
         let ep: Vec<Vec<u8>> = arr(&exp["paths"]).iter().map(json_to_bytes).collect();
         let op: Vec<Vec<u8>> = arr(&obs["paths"]).iter().map(json_to_bytes).collect();
